@@ -201,9 +201,12 @@ def run(ctx: core.Ctx):
             ctx.violation(f"{c['py']} subclass that adds the text function ZZEXTRA (parent class instantiated first): the report ZZEXTRA='hello' invoked the update callback with {seen_[:1]}",
                           {"path": "synthetic", "class": c["py"], "seen": [list(map(str, x)) for x in seen_]}, {"kind": "synthetic-subclass"})
     ctx.cov["synthetic_subclass_notifications"] = nsyn
-    # exhaustive within a bound: every schedule up to 3 (thorough: 5) deviations from the canonical one, on small scenarios
+    # client-side locks around callbacks and (un)registrations: reader and client must never wait for each other for ever
     from .. import b2check
     from .. import gen as _gen
+    b2check.run_b2(ctx, lambda rng_, th: [(_gen.client_lock(rng_, T), rng_.randrange(10 ** 9), rng_.choice([0, 0, 3])) for _ in range(4000 if th else 120)], [],
+                   label="callbacks and (un)registrations under a client-side lock (a run that does not finish is a violation)", accept=False)
+    # exhaustive within a bound: every schedule up to 3 (thorough: 5) deviations from the canonical one, on small scenarios
     _small = _gen.small_scenarios()
     b2check.run_systematic(ctx, [_small[n] for n in ("reg-in-callback", "close-in-callback", "traffic")], ["C09"], depth=5 if ctx.tier == "thorough" else 3,
                            label="reg-in-callback, close-in-callback, traffic", max_runs=60000 if ctx.tier == "thorough" else 6000)
